@@ -21,7 +21,7 @@ fn ord<T: PartialOrd>(a: T, b: T) -> Ordering { if a < b { Ordering::Less } else
 // each field in its signed integer order; partial_cmp = Some(cmp); == <=> all three fields equal <=>
 // cmp = Equal; < <= > >= are its projections; constants ZERO / ONE / MINUS_ONE / MIN / MAX are
 // field-wise 0 / 1 / -1 / MIN / MAX and MIN, MAX are the least / greatest elements.
-// @unit name=mdn_ord props=C10 kind=complete fns=Ord<IntervalMonthDayNano>::cmp,PartialOrd<IntervalMonthDayNano>::partial_cmp,PartialEq<IntervalMonthDayNano>::eq tier=thorough was_quick=1 confirmed=0
+// @unit name=mdn_ord props=C10 kind=complete fns=Ord<IntervalMonthDayNano>::cmp,PartialOrd<IntervalMonthDayNano>::partial_cmp,PartialEq<IntervalMonthDayNano>::eq
 #[kani::proof]
 fn mdn_ord() {
     let (a, b) = (any_mdn(), any_mdn());
@@ -49,7 +49,7 @@ fn mdn_ord() {
 
 // Contract (C10): IntervalDayTime: cmp is the lexicographic order on (days, milliseconds); partial_cmp,
 // ==, < <= > >= consistent with it; constants field-wise; MIN / MAX least / greatest.
-// @unit name=dt_ord props=C10 kind=complete fns=Ord<IntervalDayTime>::cmp,PartialOrd<IntervalDayTime>::partial_cmp,PartialEq<IntervalDayTime>::eq tier=thorough was_quick=1 confirmed=0
+// @unit name=dt_ord props=C10 kind=complete fns=Ord<IntervalDayTime>::cmp,PartialOrd<IntervalDayTime>::partial_cmp,PartialEq<IntervalDayTime>::eq
 #[kani::proof]
 fn dt_ord() {
     let (a, b) = (any_dt(), any_dt());
@@ -71,7 +71,7 @@ fn dt_ord() {
 // results (e_m, e_d, e_n) in i128:  checked_op = Some(v) <=> e_m, e_d fit i32 and e_n fits i64, and then
 // every field of v is the exact value; None otherwise;  wrapping_op = (e_m mod 2^32, e_d mod 2^32,
 // e_n mod 2^64).  (abs: |x| per field; neg: 0 - x per field.)
-// @unit name=mdn_addsub props=C12 kind=complete fns=IntervalMonthDayNano::checked_add,IntervalMonthDayNano::wrapping_add,IntervalMonthDayNano::checked_sub,IntervalMonthDayNano::wrapping_sub,IntervalMonthDayNano::checked_neg,IntervalMonthDayNano::wrapping_neg,IntervalMonthDayNano::checked_abs,IntervalMonthDayNano::wrapping_abs tier=thorough was_quick=1 confirmed=0
+// @unit name=mdn_addsub props=C12 kind=complete fns=IntervalMonthDayNano::checked_add,IntervalMonthDayNano::wrapping_add,IntervalMonthDayNano::checked_sub,IntervalMonthDayNano::wrapping_sub,IntervalMonthDayNano::checked_neg,IntervalMonthDayNano::wrapping_neg,IntervalMonthDayNano::checked_abs,IntervalMonthDayNano::wrapping_abs
 #[kani::proof]
 fn mdn_addsub() {
     let (a, b) = (any_mdn(), any_mdn());
@@ -105,7 +105,7 @@ fn mdn_addsub() {
 // Contract (C12): IntervalMonthDayNano checked_mul / wrapping_mul, field-wise exact: products in i128;
 // Some <=> months and days products fit i32 and the nanoseconds product fits i64, and then exact; None
 // otherwise; wrapping_mul = products mod 2^32 / 2^32 / 2^64.
-// @unit name=mdn_mul props=C12 kind=complete fns=IntervalMonthDayNano::checked_mul,IntervalMonthDayNano::wrapping_mul timeout=900 tier=thorough was_quick=1 confirmed=0
+// @unit name=mdn_mul props=C12 kind=complete fns=IntervalMonthDayNano::checked_mul,IntervalMonthDayNano::wrapping_mul timeout=900
 #[kani::proof]
 fn mdn_mul() {
     let (a, b) = (any_mdn(), any_mdn());
@@ -126,7 +126,7 @@ fn mdn_mul() {
 
 // Contract (C12): IntervalDayTime add / sub / neg / abs / mul, field-wise exact in i128: checked_op =
 // Some(v) <=> both exact field results fit i32, and then v holds them; wrapping_op = both mod 2^32.
-// @unit name=dt_ops props=C12 kind=complete fns=IntervalDayTime::checked_add,IntervalDayTime::wrapping_add,IntervalDayTime::checked_sub,IntervalDayTime::wrapping_sub,IntervalDayTime::checked_neg,IntervalDayTime::wrapping_neg,IntervalDayTime::checked_abs,IntervalDayTime::wrapping_abs,IntervalDayTime::checked_mul,IntervalDayTime::wrapping_mul timeout=900 tier=thorough was_quick=1 confirmed=0
+// @unit name=dt_ops props=C12 kind=complete fns=IntervalDayTime::checked_add,IntervalDayTime::wrapping_add,IntervalDayTime::checked_sub,IntervalDayTime::wrapping_sub,IntervalDayTime::checked_neg,IntervalDayTime::wrapping_neg,IntervalDayTime::checked_abs,IntervalDayTime::wrapping_abs,IntervalDayTime::checked_mul,IntervalDayTime::wrapping_mul timeout=900
 #[kani::proof]
 fn dt_ops() {
     let (a, b) = (any_dt(), any_dt());
